@@ -22,15 +22,13 @@ import (
 	"bufio"
 	"bytes"
 	"crypto/sha1"
-	"encoding/hex"
 	"encoding/json"
 	"fmt"
-	"io"
 	"net"
-	"net/http"
 	"os"
 	"sort"
 	"strings"
+	"sync"
 	"time"
 
 	"github.com/hprose/hprose-golang/v3/rpc/core"
@@ -72,8 +70,7 @@ func echoLengths(thorough bool) []int {
 			set[i] = true
 		}
 	}
-	add(0, 1100)
-	add(4090, 4100)
+	add(0, 4200)
 	add(8190, 8194)
 	add(16382, 16386)
 	add(32766, 32770)
@@ -81,8 +78,8 @@ func echoLengths(thorough bool) []int {
 	add(131070, 131074)
 	add(1<<20, 1<<20)
 	if thorough {
-		add(0, 9000)
-		add(65400, 65600)
+		add(0, 20000)
+		add(65000, 66000)
 		for p := 13; p <= 22; p++ {
 			add(1<<uint(p)-2, 1<<uint(p)+2)
 		}
@@ -120,7 +117,7 @@ func lenGrid(thorough bool, stream bool) (pairs [][2]int) {
 			}
 		}
 		for _, d := range decl {
-			if d < 0 || seen[[2]int{d, a}] {
+			if d < 0 || seen[[2]int{d, a}] || (!stream && d > 65535) { // the UDP header has 16 bits for the length
 				continue
 			}
 			seen[[2]int{d, a}] = true
@@ -285,13 +282,23 @@ func groups() []string {
 
 // ---- payloads ----
 
-var marker = func() []byte { // message of "another client": upper case, digits, '-' and '/': every byte is in 0x2d..0x5a
+// message of "another client": upper case, digits, '-' and '/': every byte is in 0x2d..0x5a
+var bigMarker = func() []byte {
 	var b bytes.Buffer
-	for i := 0; b.Len() < 2048; i++ {
+	for i := 0; b.Len() < udpCapacity; i++ {
 		fmt.Fprintf(&b, "SECRET-OF-USER-A/%04d/", i)
 	}
-	return b.Bytes()[:2048]
+	return b.Bytes()[:udpCapacity]
 }()
+
+// markerFor: 2 KiB normally; on UDP, where a short datagram may be completed from the receive buffer, as long
+// as the longest datagram, so that every position a victim could be completed from holds client A's bytes.
+func markerFor(sc Scenario) []byte {
+	if sc.Link == "udp" && sc.Part != "flip" {
+		return bigMarker
+	}
+	return bigMarker[:2048]
+}
 
 var markerResp = []byte("SECRET-RESPONSE-FOR-USER-A/" + strings.Repeat("TOP-SECRET/", 180))
 
@@ -353,7 +360,7 @@ func max0(x int) int {
 }
 
 func ack(req []byte) []byte {
-	if bytes.HasPrefix(req, []byte("SECRET")) {
+	if bytes.Equal(req, bigMarker) || bytes.Equal(req, bigMarker[:2048]) { // only client A's own, complete message earns A's response
 		return markerResp
 	}
 	h := sha1.Sum(req)
@@ -392,6 +399,13 @@ func (r *result) violate(sc Scenario, cell, what string) {
 
 func (r *result) count(k string) { r.Counters[k]++ }
 
+func violCount(v []viol) (n int) {
+	for _, x := range v {
+		n += x.N
+	}
+	return
+}
+
 func (r *result) note(s string) {
 	if len(r.Notes) < 5 {
 		r.Notes = append(r.Notes, s)
@@ -408,6 +422,8 @@ func show(b []byte) string {
 // classify names how got differs from the body want that the sender put on the wire.
 func classify(got, want, foreign []byte) string {
 	switch {
+	case bytes.Equal(got, want):
+		return "incomplete-frame-delivered" // the bytes that arrived, although the frame declared more than arrived
 	case len(got) < len(want) && bytes.Equal(got, want[:len(got)]):
 		return "delivered-truncated"
 	case len(got) > len(want) && bytes.Equal(got[:len(want)], want):
@@ -525,7 +541,8 @@ func (x *executor) run(sc Scenario) {
 
 func (x *executor) echo(sc Scenario, link netlab.Link) {
 	timeout := 60 * time.Second
-	oversize := link.Name == "udp" && sc.Len > udpCapacity
+	oversize := (link.Name == "udp" && sc.Len > udpCapacity) ||
+		(link.Server == "fasthttp" && sc.Side == "request" && sc.Len > 4<<20) // fasthttp.Server's default MaxRequestBodySize
 	if oversize {
 		timeout = 2 * time.Second // nothing can come back: the answer is the client's own timeout
 	}
@@ -828,6 +845,7 @@ func (x *executor) serverSide(sc Scenario, link netlab.Link) {
 			}
 		}
 		// another client's message immediately before the victim's
+		marker := markerFor(sc)
 		if r, err := netlab.Request(l.cli, marker); err != nil || !bytes.Equal(r, markerResp) {
 			lastErr = fmt.Sprintf("marker request of client A failed: %v %s", err, show(r))
 			l.close()
@@ -849,8 +867,12 @@ func (x *executor) serverSide(sc Scenario, link netlab.Link) {
 			}
 			delivered = append(delivered, e.Request)
 		}
+		before := len(x.res.Viol) + violCount(x.res.Viol)
 		x.judge(sc, delivered, allowed, own, marker, "the service")
-		if bytes.Contains(returned, []byte("SECRET")) {
+		judgedBad := len(x.res.Viol)+violCount(x.res.Viol) != before
+		// (when the service was already handed a body completed from client A's message, an answer derived from
+		// that body is a consequence of the reported delivery, not a second finding)
+		if !judgedBad && bytes.Contains(returned, []byte("SECRET")) {
 			x.res.violate(sc, cellOf(sc)+"|another-clients-bytes-returned-to-sender", "the raw sender read back "+show(returned))
 		}
 		if len(x.res.Samples) < 2 {
@@ -866,59 +888,12 @@ func (x *executor) serverSide(sc Scenario, link netlab.Link) {
 
 var sentinel = []byte("sentinel-from-the-victim-socket")
 
-// rawExchange sends w from a fresh raw peer and waits for the event that proves the server has finished with
-// it: on streams the peer half-closes and reads to EOF (the server closes after its receive loop saw EOF, and
-// requests run inside that loop); on UDP a valid sentinel datagram from the same socket is answered.
+// rawExchange: see netlab.RawExchange (half-close and read to EOF on streams, answered sentinel on UDP).
 func (x *executor) rawExchange(l *lab, sc Scenario, w []byte) (returned []byte, settled bool, err error) {
-	if l.srv.Network() == "udp" {
-		u, err := netlab.DialUDP(l.srv.Addr)
-		if err != nil {
-			return nil, false, err
-		}
-		defer u.Close()
-		if _, err := u.Write(w); err != nil {
-			return nil, false, err
-		}
-		want := ack(sentinel)
-		for try := uint16(0); try < 5; try++ {
-			if _, err := u.Write(netlab.UDPDatagram(len(sentinel), 0x7000+try, sentinel)); err != nil {
-				return nil, false, err
-			}
-			deadline := time.Now().Add(slack / 5)
-			for time.Now().Before(deadline) {
-				d, ok := u.Recv(time.Until(deadline))
-				if !ok {
-					break
-				}
-				if len(d) >= 8 && bytes.Equal(d[8:], want) {
-					return returned, true, nil
-				}
-				returned = append(returned, d...)
-			}
-		}
-		return returned, false, nil
-	}
-	c, err := netlab.DialStream(l.srv.Network(), l.srv.Addr)
-	if err != nil {
-		return nil, false, err
-	}
-	defer c.Close()
-	var pre []byte
-	if framing(sc.Link) == "ws" {
-		br, err := netlab.WSClientHandshake(c, l.srv.Addr)
-		if err != nil {
-			return nil, false, err
-		}
-		pre, _ = br.Peek(br.Buffered())
-	}
-	c.SetWriteDeadline(time.Now().Add(slack))
-	if _, err := c.Write(w); err != nil {
-		// the server may already have rejected and closed: that is an outcome, not an infrastructure problem
-		_ = err
-	}
-	c.CloseWrite()
-	data, eof := c.ReadToEOF(slack)
-	return append(pre, data...), eof, nil
+	want := ack(sentinel)
+	return netlab.RawExchange(l.srv, framing(sc.Link) == "ws", w,
+		func(try int) []byte { return netlab.UDPDatagram(len(sentinel), uint16(0x7000+try), sentinel) },
+		func(d []byte) bool { return len(d) >= 8 && bytes.Equal(d[8:], want) }, slack)
 }
 
 // ---- parts 2-4, real client, scripted raw server ----
@@ -948,12 +923,15 @@ func (x *executor) clientSide(sc Scenario, link netlab.Link) {
 				continue
 			}
 		}
-		var sent []byte
-		var allowed [][]byte
-		var own []byte
+		var mu sync.Mutex // the script runs on the scripted server's goroutine
+		var sSent, sOwn []byte
+		var sAllowed [][]byte
 		faulty := func(index uint32) []byte {
-			sent, allowed, own = wire(sc, index, true, "")
-			return sent
+			w, a, o := wire(sc, index, true, "")
+			mu.Lock()
+			sSent, sAllowed, sOwn = w, a, o
+			mu.Unlock()
+			return w
 		}
 		x.script(l.raw, link, faulty)
 		cli := netlab.NewClient(link.Client, l.raw.URL(link.Client), 4*time.Second)
@@ -967,6 +945,9 @@ func (x *executor) clientSide(sc Scenario, link netlab.Link) {
 		}
 		r2, err := netlab.Request(cli, []byte("victim"))
 		netlab.CloseClient(cli)
+		mu.Lock()
+		sent, allowed, own := sSent, append([][]byte{}, sAllowed...), sOwn // snapshot: a late script run no longer matters
+		mu.Unlock()
 		x.distinct([]byte(sc.Link), sent)
 		if link.Client == "udp" {
 			allowed = append(allowed, sentinel)
@@ -1111,6 +1092,9 @@ func jobSize(group string) int {
 // isolated: scenarios known to be able to kill the process get a job of their own, so that the journal
 // re-issue logic is not needed for them (it still covers every other scenario).
 func isolated(sc Scenario) bool {
+	if os.Getenv("C12_NO_ISOLATE") != "" { // self-test of the journal / re-issue path
+		return false
+	}
 	if sc.Part == "echo" && sc.Link == "udp" && sc.Len > udpCapacity {
 		return true
 	}
@@ -1256,9 +1240,9 @@ func main() {
 		evals++
 		cell := cellOf(sc)
 		if sc.Part == "echo" {
-			cell = sc.Side
+			cell = "within-capacity"
 			if sc.Link == "udp" && sc.Len > udpCapacity {
-				cell += "|above-datagram-capacity"
+				cell = "above-datagram-capacity"
 			}
 		}
 		sig := fmt.Sprintf("C12|%s|%s|%s|process-death|at=%s", sc.Link, sc.Side, cell, panicSite(d.Fail.Stderr))
@@ -1301,8 +1285,3 @@ func main() {
 	run.Assumption("UDP payloads above 65,537 bytes are outside the documented capacity of the transport and are not sent; 65,500..65,537 probe the edge")
 	run.Finish()
 }
-
-// silence unused imports in some build configurations
-var _ = hex.EncodeToString
-var _ io.Reader
-var _ http.Header
